@@ -329,7 +329,9 @@ pub fn colourise(doc: &mut Doc, choices: &[u8]) -> usize {
 }
 
 fn rich_case() -> BoxedStrategy<RichCase> {
-    let g = G::default().depth(2);
+    // incl. digits-only <sup> (superscript characters; some carry a style of their own, which must
+    // end with the element) and non-ASCII spaces
+    let g = G::default().depth(2).with_digit_sup();
     (gen::doc(&g), 1usize..=100, prop_oneof![1 => Just(vec![]), 2 => prop::collection::vec(any::<u8>(), 1..10)], prop::bool::weighted(0.3))
         .prop_map(|(mut doc, width, colours, pad)| {
             colourise(&mut doc, &colours);
